@@ -27,8 +27,34 @@ ASSUMPTIONS = [
     'sort keys are total (repr-based) so tie order is unobservable',
 ]
 
-KEYS = {'ka': 'a', 'kb': 'b', 'kc': 'c', 'k1': 1, 'kN': None, 'kT': (1, 2), 'k1f': 1.0, 'kTrue': True,
-        'kLong': 'K' * 450 + '-end'}
+class KeyTable(dict):
+    """Key tokens of the histories; a token that is not listed stands for itself (the dozens of extra string keys of
+    the long histories)."""
+    def __missing__(self, tok):
+        return tok
+
+
+class TagKey(object):
+    """A mutable, hashable key object compared by value: a deep copy must give the copy a key object of its own."""
+    def __init__(self, tag):
+        self.tag = tag
+        self.notes = []
+
+    def __eq__(self, other):
+        return isinstance(other, TagKey) and self.tag == other.tag
+
+    def __ne__(self, other):
+        return not self == other
+
+    def __hash__(self):
+        return hash(('TagKey', self.tag))
+
+    def __repr__(self):
+        return 'TagKey(%r)' % (self.tag,)
+
+
+KEYS = KeyTable({'ka': 'a', 'kb': 'b', 'kc': 'c', 'k1': 1, 'kN': None, 'kT': (1, 2), 'k1f': 1.0, 'kTrue': True,
+        'kLong': 'K' * 450 + '-end', 'kObj': TagKey('t')})
 STR_KEYS = ['ka', 'kb', 'kc']
 VALS = {'v0': 0, 'v1': 1, 'v2': 2, 'vx': 'x', 'vN': None, 'vT': (0, 1), 'v1f': 1.0, 'vF': False,
         # values whose repr runs to hundreds of characters (a request body, a big number)
@@ -532,6 +558,34 @@ class Run(object):
                 want = ('ok', 'DFLT') if has_default else ('exc', 'KeyError')
             expect(got, want, 'result[%s]' % name)
             self.L = m_drop(L, k)
+            if a.get('store') and got[0] == 'ok' and got[1] != 'DFLT':
+                # the caller keeps what it was handed and stores it back as an ordinary value (an "archive" entry):
+                # whatever object pop/popall returned is a value like any other
+                res = got[1]
+                for how in ('setitem', 'add', 'addlist', 'setdefault'):
+                    if how == 'setitem':
+                        d['zz-stored'] = res
+                    elif how == 'add':
+                        d.add('zz-stored', res)
+                    elif how == 'addlist':
+                        d.addlist('zz-stored', [res])
+                    else:
+                        d.setdefault('zz-stored', res)
+                    reads = outcome(lambda: (d['zz-stored'], d.get('zz-stored'), d.getlist('zz-stored'),
+                                             d.items(multi=True)[-1], d.values(multi=True)[-1], len(d),
+                                             d.items()[-1] if hasattr(d.items(), '__getitem__') else None,
+                                             d.todict(multi=True)['zz-stored'], d.counts()['zz-stored']))
+                    want_reads = ('ok', (res, res, [res], ('zz-stored', res), res, len(m_lists(self.L)) + 1,
+                                         ('zz-stored', res), [res], 1))
+                    if reads != want_reads:
+                        self.fail('stored-back[%s]' % how, 'the %s result %r stored back as a value under a fresh key (%s) '
+                                  'reads %r, a list of pairs gives %r' % (name, res, how, reads, want_reads))
+                    back = outcome(d.poplast, 'zz-stored')
+                    if back != ('ok', res) or 'zz-stored' in d:
+                        self.fail('stored-back[%s]' % how, 'poplast of the stored-back value gave %r, key still present: %r'
+                                  % (back, 'zz-stored' in d))
+                if st is not None:
+                    st.monitor_evals += 1
         elif name == 'poplast':
             has_default = 'dflt' in a
             if 'k' in a:
@@ -616,6 +670,24 @@ class Run(object):
                     st.monitor_evals += 1
             if type(c) is not type(d):
                 self.fail('copy[%s]' % how, 'type %s' % type(c).__name__)
+            # key objects: a shallow copy holds the very same key objects, a deep copy (like a deep copy of the list
+            # of pairs) holds key objects of its own, so that a note written on one side's key never shows on the other
+            dk, ck = d.keys(multi=True), c.keys(multi=True)
+            pos = [i_ for i_, k_ in enumerate(dk) if isinstance(k_, TagKey)]
+            if pos and len(dk) == len(ck):
+                if how in ('copy()', 'copy.copy', 'ctor'):
+                    if any(ck[i_] is not dk[i_] for i_ in pos):
+                        self.fail('copy-keys[%s]' % how, 'a shallow copy holds a different key object than its source')
+                else:
+                    src_ids = set(id(dk[i_]) for i_ in pos)
+                    if any(id(ck[i_]) in src_ids for i_ in pos):
+                        self.fail('copy-keys[%s]' % how, 'the copy shares a mutable key object with its source (a list '
+                                  'of pairs copied the same way has key objects of its own)')
+                    if any((dk[i_] is dk[j_]) != (ck[i_] is ck[j_]) for i_ in pos for j_ in pos):
+                        self.fail('copy-keys[%s]' % how, 'which pairs share one key object differs between the source '
+                                  'and its copy (a list of pairs copied the same way keeps the sharing)')
+                if st is not None:
+                    st.count('copy_key_identity_checks')
             try:
                 self.observe(c, L)
             except common.Violation as v:
@@ -724,6 +796,8 @@ class Check(object):
             a = {'k': k if r.random() < 0.9 else 'absent'}
             if r.random() < 0.4:
                 a['dflt'] = 1
+            if kind == 'popall':
+                a['store'] = 1
             return [kind, a]
         if kind == 'poplast':
             a = {}
@@ -737,7 +811,37 @@ class Check(object):
                                             'pickle2', 'pickle4', 'pickle5'])}]
         return [kind]
 
+    def gen_long(self, r, ctx):
+        """An object with a long life: a thousand and more operations over some thirty keys, many of them with several
+        values, hundreds of removals from the middle; read out every few dozen steps."""
+        keys = ['x%d' % i for i in range(r.choice([12, 30, 30, 50]))]
+        ops = [['new', {'shape': 'empty'}]]
+        n = r.choice([700, 1200, 2000]) if (ctx is None or not ctx.thorough) else r.choice([1200, 2500, 4000])
+        every = r.choice([25, 40, 90])
+        for i in range(n):
+            k = r.choice(keys)
+            v = r.choice(['v0', 'v1', 'v2', 'vx', 'vN'])
+            x = r.random()
+            if x < 0.45:
+                op = ['add', {'k': k, 'v': v}]
+            elif x < 0.53:
+                op = ['setitem', {'k': k, 'v': v}]
+            elif x < 0.68:
+                op = ['poplast', {'k': k, 'dflt': 1}]
+            elif x < 0.80:
+                op = ['pop', {'k': k, 'dflt': 1}]
+            elif x < 0.88:
+                op = ['popall', {'k': k, 'dflt': 1}]
+            elif x < 0.96:
+                op = ['delitem', {'k': k}] if r.random() < 0.5 else ['addlist', {'k': k, 'vs': ['v1', 'v2', 'v0'], 'shape': 'list', 'fail_after': 0}]
+            else:
+                op = ['poplast', {'dflt': 1}]
+            ops.append(op if (i % every == every - 1 or i == n - 1) else ['quiet', op])
+        return ops
+
     def gen(self, r, ctx):
+        if getattr(self, 'long', False):
+            return self.gen_long(r, ctx)
         shape = r.choice(['empty', 'empty', 'list', 'iter', 'dict', 'omd', 'fromkeys', 'tuple', 'minimal-mapping', 'dupkeys-mapping'])
         a = {'shape': shape}
         if shape == 'fromkeys':
@@ -759,6 +863,12 @@ class Check(object):
         run = Run(self.cls(), stats)
         for i, op in enumerate(history):
             try:
+                if op[0] == 'quiet':
+                    # long histories: no read-out after this operation (the next unmarked one reads everything)
+                    run.step(op[1])
+                    if stats is not None:
+                        stats.count('quiet_steps')
+                    continue
                 run.step(op)
                 run.observe()
                 if run.twin is not None:
@@ -804,6 +914,9 @@ class Check(object):
             except Exception:
                 pass
         op = failure.op or ['?']
+        if op[0] == 'quiet':
+            op = op[1]
+            pre += 'long:'
         a = op[1] if len(op) > 1 else {}
         name = 'update' if op[0] == 'ior' else op[0]
         parts = [name]
@@ -828,7 +941,7 @@ class Check(object):
         h = [list(op) for op in history]
         best = failure
         for i, op in enumerate(h):
-            if len(op) < 2:
+            if len(op) < 2 or op[0] == 'quiet':
                 continue
             for field in ('kw', 'pairs', 'vs', 'keys'):
                 vals = op[1].get(field)
@@ -857,6 +970,9 @@ class Check(object):
 def run(ctx):
     n = {'quick': 1000, 'thorough': 12000}[ctx.tier]
     explore(ctx, Check('OMD'), n, 'omd')
+    lc = Check('OMD')
+    lc.long = True
+    explore(ctx, lc, {'quick': 3, 'thorough': 40}[ctx.tier], 'omd-long')
     if ctx.thorough:
         explore(ctx, Check('QueryParamDict'), n // 4, 'qpd')
 
